@@ -16,7 +16,7 @@
 // transferred; each Resp carries the number of bytes moved and the checksum of the user buffer.  spec/Trace_SockStreamA.tla
 // replays the syscall results as the environment's choices and checks the library's reaction and the byte stream.
 //
-// usage: h_sock --prim epoll|epollng|et|fdapi[big] --execs N --seed S [--vcpus V --threads K --ops M] --out file
+// usage: h_sock --prim [batch]epoll|epollng|et|fdapi[big] --execs N --seed S [--vcpus V --threads K --ops M] --out file
 #include "vt_photon.h"
 #include <photon/net/socket.h>
 #include <photon/net/basic_socket.h>
@@ -68,7 +68,7 @@ static const int P = 32749;                     // checksum modulus (products st
 struct FdInfo { bool watch = false; int ep = 0; int wflow = 0, rflow = 0; bool et = false; };
 static FdInfo g_fd[MAXFD];
 struct FlowMirror { int64_t sent = 0, rcvd = 0; };
-static FlowMirror g_flow[8];
+static FlowMirror g_flow[64];
 static inline int val(int f, int64_t pos) { return (int)((pos + 17 * f) % 251); }
 
 // one API call in progress (looked up by photon::CURRENT inside the interposers)
@@ -82,7 +82,7 @@ struct CallCtx {
     int rep = 0;                          // EAGAIN results not logged since the last logged event of this call
     std::string last_x;
 };
-static CallCtx* g_ctx[32]; static int g_nctx = 0;
+static CallCtx* g_ctx[64]; static int g_nctx = 0;
 static CallCtx* cur_ctx() {
     auto c = photon::CURRENT;
     if (!c) return nullptr;
@@ -690,13 +690,88 @@ static int run_exec(int ex, vt::Rng& r) {
     if (!ok) return 4;
     vtp::join_all(ws);
     {
-        vt::Arr s, rc; for (int i = 0; i < 4; i++) { s.i(g_flow[i].sent); rc.i(g_flow[i].rcvd); }
+        vt::Arr s, rc; for (int i = 0; i < 2 * nconn; i++) { s.i(g_flow[i].sent); rc.i(g_flow[i].rcvd); }
         vt::Ev("Quiesce").raw("sent", s.str()).raw("rcvd", rc.str()).i("trunc", g_truncated);
     }
     g_nctx = 0;
     for (auto& c : conns) for (int s = 0; s < 2; s++) {
         auto& e = c->e[s];
         int fd = e.fd;
+        if (e.s) delete e.s; else if (fd >= 0) close(fd);
+        if (fd >= 0 && fd < MAXFD) g_fd[fd] = FdInfo();
+        for (size_t i = 0; i < g_epreg.size();) if (g_epreg[i].fd == fd) g_epreg.erase(g_epreg.begin() + i); else i++;
+    }
+    return 0;
+}
+
+// many connections whose readers are all blocked, then made readable at once: the engine's 16-event batch boundary
+static int run_batch(int ex, vt::Rng& r) {
+    g_truncated = false;
+    for (auto& fl : g_flow) fl = FlowMirror();
+    int nconn = 17 + (int)r.below(8);
+    std::vector<std::unique_ptr<Conn>> conns;
+    try {
+        for (int ci = 0; ci < nconn; ci++) { conns.emplace_back(new Conn()); make_conn(*conns.back(), ci, g_fdapi ? K_PAIR : K_UDS, false, true, r); }
+    } catch (Fail& f) { fprintf(stderr, "h_sock: setup failed: %s errno=%d\n", f.what.c_str(), errno); return 2; }
+    g_inj_level = (int)r.below(2);
+    g_injrng = vt::Rng(r.next());
+    std::vector<std::unique_ptr<Task>> tasks;
+    vt::Arr fa, ta;
+    int tid = 0;
+    for (auto& c : conns) {
+        auto& e = c->e[0];
+        e.to = -1; if (e.s) e.s->timeout(-1UL);
+        auto& fi = g_fd[e.fd]; fi.watch = true; fi.ep = e.id; fi.wflow = e.wflow; fi.rflow = e.rflow; fi.et = g_et;
+        fa.i(e.rflow);
+        for (int s = 0; s < 2; s++) { vt::Arr x; x.i(c->e[s].id).i(c->e[s].lib).i(c->e[s].to); ta.raw(x.str()); }
+        tasks.emplace_back(new Task()); Task* tk = tasks.back().get();
+        tk->ep = &e; tk->role = 0; tk->lib = true; tk->seed = r.next(); tk->w.id = tk->cx.t = ++tid;
+        Op op; const OpDef* tab = e.fdapi ? FD_OPS : STREAM_OPS; int ntab = e.fdapi ? 13 : 8;
+        do { op.d = tab[r.below(ntab)]; } while (op.d.rw != 0);
+        op.iov = split_iov(1 + (int)r.below(3), r, op.d.vec); op.pause = 0;
+        tk->prog.push_back(op);
+    }
+    g_nctx = 0;
+    for (auto& t : tasks) g_ctx[g_nctx++] = &t->cx;
+    vt::Ev("Reset").s("prim", g_prim).i("ex", ex).s("kind", "batch").i("nconn", nconn).i("inj", g_inj_level).i("et", g_et)
+        .raw("flows", fa.str()).raw("eps", ta.str()).i("intr", 0);
+    std::vector<vtp::Worker*> ws;
+    for (auto& t : tasks) { Task* tk = t.get(); tk->w.body = [tk] { tk->cx.th = photon::CURRENT; lib_task(tk); }; ws.push_back(&tk->w); }
+    vtp::Worker burst; burst.id = 60;
+    uint64_t bseed = r.next();
+    burst.body = [&] {
+        vt::Rng rr(bseed);
+        burst.where = "burst-wait";
+        photon::thread_usleep(1500 + rr.below(2000));
+        std::vector<int> order; for (int i = 0; i < nconn; i++) order.insert(order.begin() + rr.below(order.size() + 1), i);
+        int hold = rr.below(3) == 0 ? (int)rr.below(nconn) : -1;       // sometimes one connection gets its bytes later
+        for (int pass = 0; pass < 2; pass++) {
+            for (int ci : order) {
+                if ((pass == 0) == (ci == hold)) continue;
+                Endpoint* ep = &conns[ci]->e[1];
+                int n = 1 + (int)rr.below(4); char buf[8];
+                auto& sk = vt::sink(); sk.lock();
+                int64_t pos = g_flow[ep->wflow].sent;
+                for (int i = 0; i < n; i++) buf[i] = (char)val(ep->wflow, pos + i);
+                ssize_t res = real::f().send(ep->fd, buf, n, MSG_DONTWAIT | MSG_NOSIGNAL);
+                if (res > 0) { g_flow[ep->wflow].sent += res; J e("PeerWrite"); e.i("f", ep->wflow).i("r", res); e.emit_locked(); }
+                sk.unlock();
+            }
+            if (pass == 0) { burst.where = "burst-pause"; photon::thread_usleep(300 + rr.below(1500)); }
+        }
+        for (int ci : order) shut_wr(&conns[ci]->e[1]);
+    };
+    ws.push_back(&burst);
+    { vtp::GateGuard gg; for (auto w : ws) vtp::spawn_on(w, g_vc.vc[0]); for (auto& t : tasks) t->cx.th = t->w.th; }
+    if (!vtp::wait_done(ws, 4 * 1000 * 1000, g_prim.c_str())) return 4;
+    vtp::join_all(ws);
+    {
+        vt::Arr s, rc; for (int i = 0; i < 2 * nconn; i++) { s.i(g_flow[i].sent); rc.i(g_flow[i].rcvd); }
+        vt::Ev("Quiesce").raw("sent", s.str()).raw("rcvd", rc.str()).i("trunc", g_truncated);
+    }
+    g_nctx = 0;
+    for (auto& c : conns) for (int s = 0; s < 2; s++) {
+        auto& e = c->e[s]; int fd = e.fd;
         if (e.s) delete e.s; else if (fd >= 0) close(fd);
         if (fd >= 0 && fd < MAXFD) g_fd[fd] = FdInfo();
         for (size_t i = 0; i < g_epreg.size();) if (g_epreg[i].fd == fd) g_epreg.erase(g_epreg.begin() + i); else i++;
@@ -715,6 +790,8 @@ int main(int argc, char** argv) {
     std::string p = g_prim;
     if (p.size() > 3 && p.substr(p.size() - 3) == "big") { g_big = true; p = p.substr(0, p.size() - 3); }
     uint64_t ev = photon::INIT_EVENT_EPOLL, io = photon::INIT_IO_NONE;
+    bool batch = false;
+    if (p.size() > 5 && p.substr(0, 5) == "batch") { batch = true; p = p.substr(5); }
     if (p == "epollng") ev = photon::INIT_EVENT_EPOLL_NG;
     else if (p == "et") { g_et = true; io = photon::INIT_IO_SOCKET_EDGE_TRIGGER; }
     else if (p == "fdapi") g_fdapi = true;
@@ -732,7 +809,7 @@ int main(int argc, char** argv) {
     vtp::Watchdog wd; wd.start(25, g_prim.c_str());
     vt::Rng r(g_seed * 1000003 + std::hash<std::string>()(g_prim) % 1000);
     int rc = 0;
-    for (int ex = 0; ex < g_execs && !rc; ex++) rc = run_exec(ex, r);
+    for (int ex = 0; ex < g_execs && !rc; ex++) rc = batch ? run_batch(ex, r) : run_exec(ex, r);
     wd.end();
     vt::close();
     rmdir(g_dir.c_str());
